@@ -751,11 +751,23 @@ func (g *c13Gen_) fileLeaf(t *c13Type) hx.JV {
 		p := w + "/" + name
 		g.fs = append(g.fs, c13Entry{'F', p + "_target", g.content()}, c13Entry{'L', p, p + "_target"})
 		return hx.JStr(p)
-	case c == 30:
+	case c == 30 && g.r.Intn(2) == 0:
 		g.count("leaf_symlink_chain")
 		p := w + "/" + name
 		g.fs = append(g.fs, c13Entry{'F', p + "_t2", g.content()},
 			c13Entry{'L', p + "_t1", "./" + name + "_t2"}, c13Entry{'L', p, "../w/" + name + "_t1"})
+		return hx.JStr(p)
+	case c == 30 || (c == 31 && g.r.Intn(2) == 0):
+		// a chain of relative links across directories, with an unrelated
+		// file of the final name next to the first link: every hop is
+		// relative to the directory of the link just read
+		g.count("leaf_symlink_chain_across_directories")
+		p := w + "/" + name
+		g.fs = append(g.fs, c13Entry{'D', p + "_d", ""},
+			c13Entry{'F', p + "_d/" + name + "_v1", g.content()},
+			c13Entry{'L', p + "_d/latest", name + "_v1"},
+			c13Entry{'F', w + "/" + name + "_v1", "unrelated " + g.content()},
+			c13Entry{'L', p, name + "_d/latest"})
 		return hx.JStr(p)
 	case c == 31:
 		g.count("leaf_symlink_to_outside")
